@@ -538,6 +538,9 @@ def run(ctx: Ctx) -> None:
         rep.rule("C13.R13", "as C01.R21: `*args` and `**kwargs` are handed over together on the way from the user's call to the binder")
         n13 = forwarding_complete(ctx, "C13.R13", "a keyword argument dropped by a wrapper is not part of the binding: f(10, factor=5) and f(10) share a signature")
         rep.floor("C13.R13", n13, 4)
+    rep.rule("C13.R16", "a class used as a kept callable is keyed by the binding of its constructor's arguments also when it has no method (NamedTuple / dataclass style)")
+    n16 = class_binding_in_signature(ctx, "C13.R16")
+    rep.floor("C13.R16", n16, 1)
     from .c05 import falsy_distinct
     rep.rule("C13.R10", "calls that bind a different value get a different signature, falsy values included: None, 0, 0.0, \"\", [] and {} are digested from different bytes")
     n10 = falsy_distinct(ctx, "C13.R10")
@@ -639,3 +642,57 @@ def _classify(e: ast.AST) -> Tuple[Optional[str], Optional[ast.AST]]:
     if isinstance(e, ast.Attribute) and e.attr == "value" and isinstance(e.value, ast.Name):
         return "literal", e
     return None, None
+
+
+def class_binding_in_signature(ctx: Ctx, rule: str) -> int:
+    """The signature that the class inspector returns for `Cls(args..)` depends on the binding of the constructor's arguments also when the class has no
+    method to carry it (NamedTuple / dataclass style): outside the loop over the methods, the argument context reaches the returned `fun_return_sig`."""
+    from ..flow import flow_of
+    rep = ctx.report
+    prog = ctx.prog
+    f = prog.func("dds.introspect.InspectFunction.inspect_class")
+    if f is None:
+        raise AnchorError("dds.introspect.InspectFunction.inspect_class not found")
+    a = f.node.args
+    ctx_params = [x.arg for x in a.posonlyargs + a.args + a.kwonlyargs if x.annotation is not None and "FunctionArgContext" in unparse(x.annotation, 100)]
+    if not ctx_params:
+        raise AnchorError("inspect_class has no FunctionArgContext parameter")
+    ap = ctx_params[0]
+    fl = flow_of(prog, f)
+    loops = [x for x in f.own_nodes() if isinstance(x, (ast.For, ast.While))]
+    in_loop = {id(y) for lp in loops for b_ in lp.body for y in ast.walk(b_)}
+    n = 0
+    for r in f.own_nodes():
+        if not (isinstance(r, ast.Return) and isinstance(r.value, ast.Call)):
+            continue
+        kws = {k.arg: k.value for k in r.value.keywords}
+        v = kws.get("fun_return_sig")
+        if v is None:
+            continue
+        n += 1
+        # expressions the returned signature is computed from, outside the method loop
+        seen, work, hit = set(), [v], False
+        while work:
+            e = work.pop()
+            if id(e) in seen:
+                continue
+            seen.add(id(e))
+            for y in ast.walk(e):
+                if isinstance(y, ast.Name) and isinstance(y.ctx, ast.Load):
+                    if y.id == ap and id(y) not in in_loop:
+                        hit = True
+                    try:
+                        ds = fl.defs_of_use(y)
+                    except Exception:
+                        ds = []
+                    for d in ds:
+                        if d.value is not None and id(d.value) not in in_loop and id(d.stmt) not in in_loop:
+                            work.append(d.value)
+        desc = "the signature of a class depends on the binding of the constructor's arguments, with or without methods"
+        if hit:
+            rep.ok(rule, f.qname, desc, f.loc(r))
+        else:
+            rep.bad(rule, f.qname, desc, f.loc(r), [f"{f.loc(r)}: `fun_return_sig={unparse(v, 40)}` is computed from the class body and the method inspections only; `{ap}` reaches it "
+                    "only through the loop over the methods", "`class Pt(NamedTuple): x: int; y: int = 0`: dds.keep('/pt', Pt, 1) then dds.keep('/pt', Pt, 2) returns Pt(x=1, y=0): the "
+                    "two calls bind different values and share a signature"], "class-binding", what="the constructor arguments of a class without methods are not part of its signature")
+    return n
